@@ -214,3 +214,48 @@ pub fn vok_entry_o(r: Result<EntryO, OpErr>) -> (o: Option<EntryO>)
 pub fn vlength_o(entry: &MetaO, file_name: &NameL, tpe: FileType) -> (r: Option<u32>)
     ensures r matches Some(l) ==> entry.len == l, r is Some <==> entry.len <= u32::MAX,
 { unimplemented!() }
+
+// ---- the nested helper write_local_file of LocalBackend::write_bytes: open(create, truncate, write) + set_len + io::copy + sync_all ----
+pub struct VFileH { pub key: Ghost<PKey> }
+pub struct VOpenOptions { pub c: bool, pub t: bool, pub w: bool }
+impl VOpenOptions {
+    pub fn new() -> (r: VOpenOptions) ensures !r.c && !r.t && !r.w, { VOpenOptions { c: false, t: false, w: false } }
+    pub fn create(self, b: bool) -> (r: VOpenOptions) ensures r.c == b && r.t == self.t && r.w == self.w, { VOpenOptions { c: b, t: self.t, w: self.w } }
+    pub fn truncate(self, b: bool) -> (r: VOpenOptions) ensures r.t == b && r.c == self.c && r.w == self.w, { VOpenOptions { c: self.c, t: b, w: self.w } }
+    pub fn write(self, b: bool) -> (r: VOpenOptions) ensures r.w == b && r.c == self.c && r.t == self.t, { VOpenOptions { c: self.c, t: self.t, w: b } }
+    // open(2) with O_WRONLY [| O_CREAT] [| O_TRUNC] (ASSUMED POSIX)
+    #[verifier::external_body]
+    pub fn open(self, path: &PathL, vfs: &mut VFsW) -> (r: Result<VFileH, IoError>)
+        ensures
+            r matches Ok(f) ==> self.w && (self.c || old(vfs).files@.dom().contains(path.key@)) && f.key@ == path.key@
+                && final(vfs).files@ == old(vfs).files@.insert(path.key@, if self.t || !old(vfs).files@.dom().contains(path.key@) { Seq::<u8>::empty() } else { old(vfs).files@[path.key@] }),
+            r is Err ==> final(vfs).files@ == old(vfs).files@,
+    { unimplemented!() }
+}
+pub open spec fn zeros(n: int) -> Seq<u8> { Seq::new(n as nat, |i: int| 0u8) }
+pub open spec fn after_set_len(old: Seq<u8>, n: int) -> Seq<u8> { if n <= old.len() { old.subrange(0, n) } else { old + zeros(n - old.len()) } }
+pub open spec fn overwritten(old: Seq<u8>, data: Seq<u8>) -> Seq<u8> {
+    if data.len() >= old.len() { data } else { data + old.subrange(data.len() as int, old.len() as int) }
+}
+impl VFileH {
+    // File::set_len (ftruncate): cut or zero-extend to n bytes; the offset stays 0
+    #[verifier::external_body]
+    pub fn set_len(&self, n: u64, vfs: &mut VFsW) -> (r: Result<(), IoError>)
+        requires old(vfs).files@.dom().contains(self.key@),
+        ensures r is Ok ==> final(vfs).files@ == old(vfs).files@.insert(self.key@, after_set_len(old(vfs).files@[self.key@], n as int)),
+                r is Err ==> final(vfs).files@ == old(vfs).files@,
+    { unimplemented!() }
+    // File::sync_all: durability only
+    #[verifier::external_body]
+    pub fn sync_all(&self) -> Result<(), IoError> { unimplemented!() }
+}
+// std::io::copy(&mut reader, &mut file) on a handle at offset 0 (ASSUMED): Ok => all bytes written from offset 0 on
+#[verifier::external_body]
+pub fn vio_copy(reader: &mut ReaderL, file: &mut VFileH, vfs: &mut VFsW) -> (r: Result<u64, IoError>)
+    requires old(vfs).files@.dom().contains(old(file).key@),
+    ensures
+        final(file).key@ == old(file).key@,
+        r is Ok ==> final(vfs).files@ == old(vfs).files@.insert(old(file).key@, overwritten(old(vfs).files@[old(file).key@], old(reader).data@)),
+        forall|k: PKey| k != old(file).key@ ==> (#[trigger] final(vfs).files@.dom().contains(k)) == old(vfs).files@.dom().contains(k),
+        forall|k: PKey| k != old(file).key@ && old(vfs).files@.dom().contains(k) ==> #[trigger] final(vfs).files@[k] == old(vfs).files@[k],
+{ unimplemented!() }
